@@ -1087,6 +1087,11 @@ class FileStorage(
                 # operation doesn't block all other activity.
                 self._lock.release()
                 self._lock.acquire()
+                if self._pack_is_in_progress or us.file is not self._file:
+                    # A pack started, or replaced the file we are reading.
+                    raise UndoError(
+                        'Undo is currently disabled for database '
+                        'maintenance.<p>')
             return us.results
 
     def undo(self, transaction_id, transaction):
@@ -1440,10 +1445,11 @@ class FileStorage(
         return FileIterator(self._file_name, start, stop)
 
     def lastInvalidations(self, count):
-        file = self._file
-        seek = file.seek
-        read = file.read
         with self._lock:
+            # (a pack replaces self._file: look at it under the lock only)
+            file = self._file
+            seek = file.seek
+            read = file.read
             pos = self._pos
             while count > 0 and pos > 4:
                 count -= 1
